@@ -278,6 +278,25 @@ class StateMonitor(Monitor):
                         V(eng, ["C06"], "experiment-wait-raises", f"experiment.wait() ended with {outcome}")
 
 
+    def on_run_end(self, eng, pr, rr):
+        """Leaving the block (after an explicit experiment.wait() inside it, which the driver always performs first and
+        whose FailedExperiment it catches): the exit itself must report failure exactly when a job of the run failed."""
+        from experimaestro.scheduler.base import JobState
+
+        if rr.get("inconclusive") or rr.get("left") != "normal" or rr.get("resubmitted"):
+            return
+        mine = [o for objs in eng.jobs.values() for o in objs if getattr(o, "_xv_run", None) is pr.xp]
+        if not mine or any(o.state is None or not o.state.finished() for o in mine):
+            return
+        anyfail = any(o.state == JobState.ERROR for o in mine)
+        got = rr.get("exit_exception")
+        eng.events.append(("block-left-normally", "FailedExperiment" if anyfail else "no failure", eng.step))
+        if anyfail and got != "FailedExperiment":
+            V(eng, ["C07"], "exit-does-not-report-failure", f"a job failed, experiment.wait() inside the block raised, but leaving the block raised {got}")
+        elif not anyfail and got is not None:
+            V(eng, ["C07"], "exit-reports-failure-without-failed-job", f"no job failed but leaving the block raised {got}")
+
+
 class TokenMonitor(Monitor):
     """C09: tokens given back, waiting jobs run; class invariant of C08 inside the token's own locks."""
 
